@@ -2,6 +2,8 @@ package main
 
 import (
 	"fmt"
+	"runtime"
+	"strings"
 
 	"github.com/tuneinsight/lattigo/v6/core/rlwe"
 	"github.com/tuneinsight/lattigo/v6/ring"
@@ -13,10 +15,25 @@ import (
 func try(f func() []byte) (out []byte) {
 	defer func() {
 		if r := recover(); r != nil {
-			out = []byte(fmt.Sprintf("PANIC: %v", r))
+			out = []byte(fmt.Sprintf("PANIC: %v @ %s", r, panicSite()))
 		}
 	}()
 	return f()
+}
+
+func panicSite() string {
+	pcs := make([]uintptr, 48)
+	n := runtime.Callers(3, pcs)
+	fr := runtime.CallersFrames(pcs[:n])
+	for {
+		f, more := fr.Next()
+		if strings.Contains(f.Function, "lattigo") {
+			return fmt.Sprintf("%s:%d", f.Function[strings.LastIndex(f.Function, "/")+1:], f.Line)
+		}
+		if !more {
+			return "?"
+		}
+	}
 }
 
 // --- rlwe.Evaluator ---------------------------------------------------------------------------
@@ -58,6 +75,9 @@ func rlweEvalOps() []op {
 			return cat(errBytes(err), ctBytes(out))
 		}},
 		{"InnerSum", func(e *env, o interface{}) []byte {
+			if e.p.PCount() == 0 {
+				return []byte("n/a without P (hoisted rotations)")
+			}
 			return try(func() []byte {
 				ct := e.testCt("isum", 1, 1)
 				out := rlwe.NewCiphertext(e.p, 1, 1)
